@@ -277,6 +277,158 @@ def lit_tags_DeactivateSignedDataModel : List String :=
 def lit_tags_JWK : List String :=
   ["Kty string json:\"kty\"", "Crv string json:\"crv\"", "X string json:\"x\"", "Y string json:\"y\"", "N string json:\"n,omitempty\"", "E string json:\"e,omitempty\"", "Nonce string json:\"nonce,omitempty\""]
 
+/-- pkg/internal/jsoncanonicalizer/jsoncanonicalizer.go:Transform -/
+def skel_jcs_Transform : List String :=
+  ["var jsonDataLength int = len(jsonData)", "var index int = 0", "var parseElement func() string", "var parseSimpleType func() string", "var parseQuotedString func() string", "var parseObject func() string", "var parseArray func() string", "var globalError error = nil", "checkError := func(e error) { if globalError == nil { globalError = e } }", "setError := func(msg string) { checkError(errors.New(msg)) }", "isWhiteSpace := func(c byte) bool { return c == 0x20 || c == 0x0a || c == 0x0d || c == 0x09 }", "nextChar := func() byte { if index < jsonDataLength { c := jsonData[index] if c > 0x7f { setError(\"Unexpected non-ASCII character\") } index++ return c } setError(\"Unexpected EOF reached\") return '\"' }", "scan := func() byte { for { c := nextChar() if isWhiteSpace(c) { continue } return c } }", "scanFor := func(expected byte) { c := scan() if c != expected { setError(\"Expected '\" + string(expected) + \"' but got '\" + string(c) + \"'\") } }", "getUEscape := func() rune { start := index nextChar() nextChar() nextChar() nextChar() if globalError != nil { return 0 } u16, err := strconv.ParseUint(string(jsonData[start:index]), 16, 64) checkError(err) return rune(u16) }", "testNextNonWhiteSpaceChar := func() byte { save := index c := scan() index = save return c }", "decorateString := func(rawUTF8 string) string { var quotedString strings.Builder quotedString.WriteByte('\"') CoreLoop: for _, c := range []byte(rawUTF8) { for i, esc := range binaryEscapes { if esc == c { quotedString.WriteByte('\\\\') quotedString.WriteByte(asciiEscapes[i]) continue CoreLoop } } if c < 0x20 { quotedString.WriteString(fmt.Sprintf(\"\\\\u%04x\", c)) } else { quotedString.WriteByte(c) } } quotedString.WriteByte('\"') return quotedString.String() }", "parseQuotedString = func() string { var rawString strings.Builder CoreLoop: for globalError == nil { var c byte if index < jsonDataLength { c = jsonData[index] index++ } else { nextChar() break } if c == '\"' { break } if c < ' ' { setError(\"Unterminated string literal\") } else if c == '\\\\' { c = nextChar() if c == 'u' { firstUTF16 := getUEscape() if utf16.IsSurrogate(firstUTF16) { if nextChar() != '\\\\' || nextChar() != 'u' { setError(\"Missing surrogate\") } else { rawString.WriteRune(utf16.DecodeRune(firstUTF16, getUEscape())) } } else { rawString.WriteRune(firstUTF16) } } else if c == '/' { rawString.WriteByte('/') } else { for i, esc := range asciiEscapes { if esc == c { rawString.WriteByte(binaryEscapes[i]) continue CoreLoop } } setError(\"Unexpected escape: \\\\\" + string(c)) } } else { rawString.WriteByte(c) } } return rawString.String() }", "parseSimpleType = func() string { var token strings.Builder index-- for globalError == nil { c := testNextNonWhiteSpaceChar() if c == ',' || c == ']' || c == '}' { break } c = nextChar() if isWhiteSpace(c) { break } token.WriteByte(c) } if token.Len() == 0 { setError(\"Missing argument\") } value := token.String() for _, literal := range literals { if literal == value { return literal } } ieeeF64, err := strconv.ParseFloat(value, 64) checkError(err) value, err = NumberToJSON(ieeeF64) checkError(err) return value }", "parseElement = func() string { switch scan() { case '{': return parseObject() case '\"': return decorateString(parseQuotedString()) case '[': return parseArray() default: return parseSimpleType() } }", "parseArray = func() string { var arrayData strings.Builder arrayData.WriteByte('[') var next bool = false for globalError == nil && testNextNonWhiteSpaceChar() != ']' { if next { scanFor(',') arrayData.WriteByte(',') } else { next = true } arrayData.WriteString(parseElement()) } scan() arrayData.WriteByte(']') return arrayData.String() }", "lexicographicallyPrecedes := func(sortKey []uint16, e *list.Element) bool { oldSortKey := e.Value.(nameValueType).sortKey minLength := len(oldSortKey) if minLength > len(sortKey) { minLength = len(sortKey) } for q := 0; q < minLength; q++ { diff := int(sortKey[q]) - int(oldSortKey[q]) if diff < 0 { return true } else if diff > 0 { return false } } if len(sortKey) < len(oldSortKey) { return true } if len(sortKey) == len(oldSortKey) { setError(\"Duplicate key: \" + e.Value.(nameValueType).name) } return false }", "parseObject = func() string { nameValueList := list.New() var next bool = false CoreLoop: for globalError == nil && testNextNonWhiteSpaceChar() != '}' { if next { scanFor(',') } next = true scanFor('\"') rawUTF8 := parseQuotedString() if globalError != nil { break } sortKey := utf16.Encode([]rune(rawUTF8)) scanFor(':') nameValue := nameValueType{rawUTF8, sortKey, parseElement()} for e := nameValueList.Front(); e != nil; e = e.Next() { if lexicographicallyPrecedes(sortKey, e) { nameValueList.InsertBefore(nameValue, e) continue CoreLoop } } nameValueList.PushBack(nameValue) } scan() var objectData strings.Builder objectData.WriteByte('{') next = false for e := nameValueList.Front(); e != nil; e = e.Next() { if next { objectData.WriteByte(',') } next = true nameValue := e.Value.(nameValueType) objectData.WriteString(decorateString(nameValue.name)) objectData.WriteByte(':') objectData.WriteString(nameValue.value) } objectData.WriteByte('}') return objectData.String() }", "var transformed string", "if testNextNonWhiteSpaceChar() == '[' {", "  scan()", "  transformed = parseArray()", "} else {", "  scanFor('{')", "  transformed = parseObject()", "}", "for ; index < jsonDataLength;  {", "  if !isWhiteSpace(jsonData[index]) {", "    setError(\"Improperly terminated JSON object\")", "    break", "  }", "  index++", "}", "return []byte(transformed), globalError"]
+
+/-- pkg/internal/jsoncanonicalizer/es6numfmt.go:NumberToJSON -/
+def skel_jcs_NumberToJSON : List String :=
+  ["ieeeU64 := math.Float64bits(ieeeF64)", "if (ieeeU64 & invalidPattern) == invalidPattern {", "  return \"null\", error(...)", "}", "if ieeeF64 == 0 {", "  return \"0\", nil", "}", "var sign string = \"\"", "if ieeeF64 < 0 {", "  ieeeF64 = -ieeeF64", "  sign = \"-\"", "}", "var format byte = 'e'", "if ieeeF64 < 1e+21 && ieeeF64 >= 1e-6 {", "  format = 'f'", "}", "es6Formatted := strconv.FormatFloat(ieeeF64, format, -1, 64)", "exponent := strings.IndexByte(es6Formatted, 'e')", "if exponent > 0 {", "  gform := strconv.FormatFloat(ieeeF64, 'g', 17, 64)", "  if len(gform) == len(es6Formatted) {", "    es6Formatted = gform", "  }", "  if es6Formatted[exponent+2] == '0' {", "    es6Formatted = es6Formatted[:exponent+2] + es6Formatted[exponent+3:]", "  }", "} else {", "  if strings.IndexByte(es6Formatted, '.') < 0 && len(es6Formatted) >= 12 { i := len(es6Formatted) for es6Formatted[i-1] == '0' { i-- } if i != len(es6Formatted) { fix := strconv.FormatFloat(ieeeF64, 'f', 0, 64) if fix[i] >= '5' { es6Formatted = fix[:i-1] + string(fix[i-1]+1) + es6Formatted[i:] } } }", "}", "return sign + es6Formatted, nil"]
+
+/-- pkg/canonicalizer/canonicalizer.go:MarshalCanonical -/
+def skel_jcs_MarshalCanonical : List String :=
+  ["valueBytes, ok := value.([]byte)", "if !ok {", "  var err error", "  valueBytes, err = json.Marshal(value)", "  if err != nil {", "    return nil, err", "  }", "}", "return jsoncanonicalizer.Transform(valueBytes)"]
+
+/-- pkg/hashing/hash.go:ComputeMultihash -/
+def skel_hashing_ComputeMultihash : List String :=
+  ["hash, err := GetHashFromMultihash(multihashCode)", "if err != nil {", "  return nil, err", "}", "hashedBytes, err := GetHash(hash, bytes)", "if err != nil {", "  return nil, err", "}", "return multihash.Encode(hashedBytes, uint64(multihashCode))"]
+
+/-- pkg/hashing/hash.go:GetMultihash -/
+def skel_hashing_GetMultihash : List String :=
+  ["multihashBytes, err := encoder.DecodeString(encodedMultihash)", "if err != nil {", "  return nil, err", "}", "return multihash.Decode(multihashBytes)"]
+
+/-- pkg/hashing/hash.go:GetMultihashCode -/
+def skel_hashing_GetMultihashCode : List String :=
+  ["mh, err := GetMultihash(encodedMultihash)", "if err != nil {", "  return 0, error(...)", "}", "return mh.Code, nil"]
+
+/-- pkg/hashing/hash.go:IsSupportedMultihash -/
+def skel_hashing_IsSupportedMultihash : List String :=
+  ["code, err := GetMultihashCode(encodedMultihash)", "if err != nil {", "  return false", "}", "return multihash.ValidCode(code)"]
+
+/-- pkg/hashing/hash.go:IsComputedUsingMultihashAlgorithms -/
+def skel_hashing_IsComputedUsingMultihashAlgorithms : List String :=
+  ["mhCode, err := GetMultihashCode(encodedMultihash)", "if err != nil {", "  return false", "}", "for _, supported := range codes {", "  if mhCode == uint64(supported) {", "    return true", "  }", "}", "return false"]
+
+/-- pkg/hashing/hash.go:CalculateModelMultihash -/
+def skel_hashing_CalculateModelMultihash : List String :=
+  ["bytes, err := canonicalizer.MarshalCanonical(value)", "if err != nil {", "  return \"\", err", "}", "multiHashBytes, err := ComputeMultihash(alg, bytes)", "if err != nil {", "  return \"\", err", "}", "return encoder.EncodeToString(multiHashBytes), nil"]
+
+/-- pkg/hashing/hash.go:IsValidModelMultihash -/
+def skel_hashing_IsValidModelMultihash : List String :=
+  ["code, err := GetMultihashCode(modelMultihash)", "if err != nil {", "  return err", "}", "encodedComputedMultihash, err := CalculateModelMultihash(model, uint(code))", "if err != nil {", "  return err", "}", "if encodedComputedMultihash != modelMultihash {", "  return error(...)", "}", "return nil"]
+
+/-- pkg/hashing/hash.go:GetHashFromMultihash -/
+def skel_hashing_GetHashFromMultihash : List String :=
+  ["switch multihashCode {", "case multihash.SHA2_256:", "  h = crypto.SHA256", "case multihash.SHA2_512:", "  h = crypto.SHA512", "default:", "  err = error(...)", "}", "return h, err"]
+
+/-- pkg/hashing/hash.go:GetHash -/
+def skel_hashing_GetHash : List String :=
+  ["if !hash.Available() {", "  return nil, error(...)", "}", "h := hash.New()", "if _, hashErr := h.Write(data); hashErr != nil {", "  return nil, hashErr", "}", "result := h.Sum(nil)", "return result, nil"]
+
+/-- pkg/commitment/hash.go:GetRevealValue -/
+def skel_commitment_GetRevealValue : List String :=
+  ["rv, err := hashing.CalculateModelMultihash(jwk, multihashCode)", "if err != nil {", "  return \"\", error(...)", "}", "return rv, nil"]
+
+/-- pkg/commitment/hash.go:GetCommitment -/
+def skel_commitment_GetCommitment : List String :=
+  ["data, err := canonicalizer.MarshalCanonical(jwk)", "if err != nil {", "  return \"\", err", "}", "hash, err := hashing.GetHashFromMultihash(multihashCode)", "if err != nil {", "  return \"\", err", "}", "dataHash, err := hashing.GetHash(hash, data)", "if err != nil {", "  return \"\", err", "}", "multiHash, err := hashing.ComputeMultihash(multihashCode, dataHash)", "if err != nil {", "  return \"\", err", "}", "return encoder.EncodeToString(multiHash), nil"]
+
+/-- pkg/commitment/hash.go:GetCommitmentFromRevealValue -/
+def skel_commitment_GetCommitmentFromRevealValue : List String :=
+  ["mh, err := hashing.GetMultihash(rv)", "if err != nil {", "  return \"\", error(...)", "}", "multiHash, err := hashing.ComputeMultihash(uint(mh.Code), mh.Digest)", "if err != nil {", "  return \"\", error(...)", "}", "return encoder.EncodeToString(multiHash), nil"]
+
+/-- pkg/patch/patch.go:PatchesFromDocument -/
+def skel_patch_PatchesFromDocument : List String :=
+  ["parsed, err := document.FromBytes([]byte(doc))", "if err != nil {", "  return nil, err", "}", "if err := validateDocument(parsed); err != nil {", "  return nil, err", "}", "var docPatches []Patch", "var jsonPatches []string", "for _, key := range sortedKeys(parsed) {", "  jsonBytes, err := json.Marshal(parsed[key])", "  if err != nil {", "    return nil, err", "  }", "  var docPatch Patch", "  switch key {", "  case document.PublicKeyProperty:", "    docPatch, err = NewAddPublicKeysPatch(string(jsonBytes))", "  case document.ServiceProperty:", "    docPatch, err = NewAddServiceEndpointsPatch(string(jsonBytes))", "  case document.AlsoKnownAs:", "    docPatch, err = NewAddAlsoKnownAs(string(jsonBytes))", "  default:", "    jsonPatches = append(jsonPatches, fmt.Sprintf(jsonPatchAddTemplate, key, string(jsonBytes)))", "  }", "  if err != nil {", "    return nil, err", "  }", "  if docPatch != nil {", "    docPatches = append(docPatches, docPatch)", "  }", "}", "if len(jsonPatches) > 0 {", "  combinedJSONPatch, err := NewJSONPatch(fmt.Sprintf(\"[%s]\", strings.Join(jsonPatches, \",\")))", "  if err != nil {", "    return nil, err", "  }", "  docPatches = append(docPatches, combinedJSONPatch)", "}", "return docPatches, nil"]
+
+/-- pkg/patch/patch.go:NewReplacePatch -/
+def skel_patch_NewReplacePatch : List String :=
+  ["parsed, err := document.ReplaceDocumentFromBytes([]byte(doc))", "if err != nil {", "  return nil, err", "}", "if err := validateReplaceDocument(parsed); err != nil {", "  return nil, err", "}", "patch := make(Patch)", "patch[ActionKey] = Replace", "patch[DocumentKey] = parsed.JSONLdObject()", "return patch, nil"]
+
+/-- pkg/patch/patch.go:NewJSONPatch -/
+def skel_patch_NewJSONPatch : List String :=
+  ["var generic []interface{}", "err := json.Unmarshal([]byte(patches), &generic)", "if err != nil {", "  return nil, err", "}", "patch := make(Patch)", "patch[ActionKey] = JSONPatch", "patch[PatchesKey] = generic", "return patch, nil"]
+
+/-- pkg/patch/patch.go:NewAddPublicKeysPatch -/
+def skel_patch_NewAddPublicKeysPatch : List String :=
+  ["pubKeys, err := getPublicKeys(publicKeys)", "if err != nil {", "  return nil, err", "}", "patch := make(Patch)", "patch[ActionKey] = AddPublicKeys", "patch[PublicKeys] = pubKeys", "return patch, nil"]
+
+/-- pkg/patch/patch.go:NewRemovePublicKeysPatch -/
+def skel_patch_NewRemovePublicKeysPatch : List String :=
+  ["ids, err := getStringArray(publicKeyIds)", "if err != nil {", "  return nil, error(...)", "}", "if len(ids) == 0 {", "  return nil, error(...)", "}", "patch := make(Patch)", "patch[ActionKey] = RemovePublicKeys", "patch[IdsKey] = getGenericArray(ids)", "return patch, nil"]
+
+/-- pkg/patch/patch.go:NewAddServiceEndpointsPatch -/
+def skel_patch_NewAddServiceEndpointsPatch : List String :=
+  ["services, err := getServices(serviceEndpoints)", "if err != nil {", "  return nil, err", "}", "patch := make(Patch)", "patch[ActionKey] = AddServiceEndpoints", "patch[ServicesKey] = services", "return patch, nil"]
+
+/-- pkg/patch/patch.go:NewRemoveServiceEndpointsPatch -/
+def skel_patch_NewRemoveServiceEndpointsPatch : List String :=
+  ["ids, err := getStringArray(serviceEndpointIds)", "if err != nil {", "  return nil, error(...)", "}", "if len(ids) == 0 {", "  return nil, error(...)", "}", "patch := make(Patch)", "patch[ActionKey] = RemoveServiceEndpoints", "patch[IdsKey] = getGenericArray(ids)", "return patch, nil"]
+
+/-- pkg/patch/patch.go:NewAddAlsoKnownAs -/
+def skel_patch_NewAddAlsoKnownAs : List String :=
+  ["urisToAdd, err := getStringArray(uris)", "if err != nil {", "  return nil, error(...)", "}", "if len(urisToAdd) == 0 {", "  return nil, error(...)", "}", "patch := make(Patch)", "patch[ActionKey] = AddAlsoKnownAs", "patch[UrisKey] = getGenericArray(urisToAdd)", "return patch, nil"]
+
+/-- pkg/patch/patch.go:NewRemoveAlsoKnownAs -/
+def skel_patch_NewRemoveAlsoKnownAs : List String :=
+  ["urisToRemove, err := getStringArray(uris)", "if err != nil {", "  return nil, error(...)", "}", "if len(urisToRemove) == 0 {", "  return nil, error(...)", "}", "patch := make(Patch)", "patch[ActionKey] = RemoveAlsoKnownAs", "patch[UrisKey] = getGenericArray(urisToRemove)", "return patch, nil"]
+
+/-- pkg/patch/patch.go:GetValue -/
+def skel_patch_GetValue : List String :=
+  ["action, err := p.GetAction()", "if err != nil {", "  return nil, err", "}", "valueKey, ok := actionConfig[action]", "if !ok {", "  return nil, error(...)", "}", "entry, ok := p[valueKey]", "if !ok {", "  return nil, error(...)", "}", "return entry, nil"]
+
+/-- pkg/patch/patch.go:GetAction -/
+def skel_patch_GetAction : List String :=
+  ["entry, ok := p[ActionKey]", "if !ok {", "  return \"\", error(...)", "}", "var action Action", "switch v := entry.(type) { case Action: action = v case string: action = Action(v) default: return \"\", fmt.Errorf(\"action type not supported: %s\", v) }", "_, ok = actionConfig[action]", "if !ok {", "  return \"\", error(...)", "}", "return action, nil"]
+
+/-- pkg/patch/patch.go:Bytes -/
+def skel_patch_Bytes : List String :=
+  ["return json2.MarshalCanonical(p)"]
+
+/-- pkg/patch/patch.go:JSONLdObject -/
+def skel_patch_JSONLdObject : List String :=
+  ["return p"]
+
+/-- pkg/patch/patch.go:FromBytes -/
+def skel_patch_FromBytes : List String :=
+  ["patch := make(Patch)", "err := json.Unmarshal(data, &patch)", "if err != nil {", "  return nil, err", "}", "_, err = patch.GetAction()", "if err != nil {", "  return nil, err", "}", "_, err = patch.GetValue()", "if err != nil {", "  return nil, err", "}", "return patch, nil"]
+
+/-- pkg/patch/patch.go:stringEntry -/
+def skel_patch_stringEntry : List String :=
+  ["if entry == nil {", "  return \"\"", "}", "id, ok := entry.(string)", "if !ok {", "  return \"\"", "}", "return id"]
+
+/-- pkg/patch/patch.go:validateReplaceDocument -/
+def skel_patch_validateReplaceDocument : List String :=
+  ["allowedKeys := []string{...}", "for key := range doc {", "  if !contains(allowedKeys, key) {", "    return error(...)", "  }", "}", "return nil"]
+
+/-- pkg/patch/patch.go:contains -/
+def skel_patch_contains : List String :=
+  ["for _, k := range keys {", "  if k == key {", "    return true", "  }", "}", "return false"]
+
+/-- pkg/patch/patch.go:validateDocument -/
+def skel_patch_validateDocument : List String :=
+  ["if doc.ID() != \"\" {", "  return error(...)", "}", "return nil"]
+
+/-- pkg/patch/patch.go:getPublicKeys -/
+def skel_patch_getPublicKeys : List String :=
+  ["pkDoc, err := document.DidDocumentFromBytes([]byte(fmt.Sprintf(`{%q:%s}`, document.PublicKeyProperty, publicKeys)))", "if err != nil {", "  return nil, error(...)", "}", "return pkDoc[document.PublicKeyProperty], nil"]
+
+/-- pkg/patch/patch.go:getServices -/
+def skel_patch_getServices : List String :=
+  ["svcDocStr := fmt.Sprintf(`{%q:%s}`, document.ServiceProperty, serviceEndpoints)", "svcDoc, err := document.DidDocumentFromBytes([]byte(svcDocStr))", "if err != nil {", "  return nil, error(...)", "}", "return svcDoc[document.ServiceProperty], nil"]
+
+/-- pkg/patch/patch.go:getStringArray -/
+def skel_patch_getStringArray : List String :=
+  ["var values []string", "err := json.Unmarshal([]byte(arr), &values)", "if err != nil {", "  return nil, err", "}", "return values, nil"]
+
+/-- pkg/patch/patch.go:getGenericArray -/
+def skel_patch_getGenericArray : List String :=
+  ["var values []interface{}", "for _, v := range arr {", "  values = append(values, v)", "}", "return values"]
+
+/-- pkg/patch/patch.go:sortedKeys -/
+def skel_patch_sortedKeys : List String :=
+  ["keys := make([]string, len(m))", "i := 0", "for k := range m {", "  keys[i] = k", "  i++", "}", "sort.Strings(keys)", "return keys"]
+
 /-- pkg/vdr/sidetreelongform/sidetree/doc/doc.go:rawDoc -/
 def lit_tags_rawDoc : List String :=
   ["PublicKey []map[string]interface{} json:\"publicKey,omitempty\"", "Service []map[string]interface{} json:\"service,omitempty\"", "AlsoKnownAs []interface{} json:\"alsoKnownAs,omitempty\""]
